@@ -19,7 +19,7 @@ RULE = (
 ASSUMPTIONS = [
     "indices beyond the explored n (exhaustive n<=N_EXH, sampled n<=5000) and k>4 are not covered",
 ]
-REQUIRED = {"unrank_checked": {"quick": 100000, "thorough": 1000000}, "scorer_runs": {"quick": 20, "thorough": 100}, "scorer_runs_production_regime": {"quick": 10, "thorough": 60}, "scorer_counting_runs": {"quick": 40, "thorough": 300}}
+REQUIRED = {"unrank_checked": {"quick": 100000, "thorough": 1000000}, "scorer_runs": {"quick": 20, "thorough": 100}, "scorer_runs_production_regime": {"quick": 10, "thorough": 60}, "scorer_counting_runs": {"quick": 40, "thorough": 300}, "scorer_object_counting_runs": {"quick": 20, "thorough": 120}}
 
 N_EXH = {"quick": 40, "thorough": 64}
 BIG_N = [100, 317, 1000, 2000, 5000]
@@ -132,7 +132,7 @@ def run_shard(rec, tier, seed, shard, nshards):
             else:
                 n_thetas = int(rng.choice([3, 4, 5, 6, 9, 12, 17, 20, 25, 33, 40]))
                 total = comb(n_thetas, 3)
-                budget = int(rng.choice([1, 2, total - 1 if total > 1 else 1, total, total + 5, 50, 5000]))
+                budget = int(rng.choice([1, 2, total - 1 if total > 1 else 1, total, total + 5, 50, 5000, 20000]))
             budget = max(1, budget)
             n_plates = int(rng.integers(1, 4))
             E = int(rng.integers(1, 5))
@@ -179,6 +179,59 @@ def run_shard(rec, tier, seed, shard, nshards):
             used = np.exp(np.asarray(sc, dtype=float) - term)
             rec.count("scorer_counting_runs")
             rec.check(bool(np.all(np.abs(used - want) <= 1e-6 * want)), "C15/scorer/triples-not-all-used", lambda: "the kernel evaluated %r triples, %d were selected (n_thetas=%d, budget=%d, C(n,3)=%d)" % (np.round(used, 3).tolist(), want, n_thetas, budget, total), {"n_thetas": n_thetas, "budget": budget})
+
+            # the same counting run through the production entry point: a GaussianDBALScorer object configured with
+            # this budget, a real Screen, a ThetaHolder of stub samples and a complete ChunkedDistanceMatrix
+            scorer_object_counting_run(rec, rng, G, n_thetas, budget, total)
+
+
+def scorer_object_counting_run(rec, rng, G, n_thetas, budget, total):
+    from batchie.core import Theta, ThetaHolder
+    from batchie.data import Screen
+    from batchie.distance_calculation import ChunkedDistanceMatrix
+
+    class Same(Theta):
+        """every posterior sample predicts the same means with unit variance"""
+
+        def __init__(self, mean):
+            self.mean = mean
+
+        def predict_conditional_mean(self, data):
+            return self.mean[np.asarray(data.selection_vector)].copy()
+
+        def predict_conditional_variance(self, data):
+            return np.ones(int(np.asarray(data.selection_vector).sum()))
+
+        def predict_viability(self, data):
+            return self.predict_conditional_mean(data)
+
+    if n_thetas > 60:
+        return  # the all-ones distance matrix below is filled pair by pair
+    sizes = [int(rng.integers(1, 4)) for _ in range(int(rng.integers(1, 4)))]
+    n_rows = sum(sizes)
+    pn = np.array(["p%02d" % p for p, e in enumerate(sizes) for _ in range(e)], dtype=str)
+    screen = Screen(treatment_names=np.array([["a", "b"]] * n_rows, dtype=str), treatment_doses=np.ones((n_rows, 2)), sample_names=np.array(["s"] * n_rows, dtype=str), plate_names=pn)
+    mean = rng.normal(size=n_rows)
+    holder = ThetaHolder(n_thetas=n_thetas)
+    for _ in range(n_thetas):
+        holder.add_theta(Same(mean))
+    cdm = ChunkedDistanceMatrix(size=n_thetas)
+    for i in range(n_thetas):
+        for j in range(i):
+            cdm.add_value(i, j, 1.0)
+    plates = {int(p.plate_id): p for p in screen.plates}
+    want = min(total, budget)
+    try:
+        res = G.GaussianDBALScorer(max_chunk=int(rng.choice([1, 2, 50])), max_triples=budget).score(plates=plates, distance_matrix=cdm, samples=holder, rng=np.random.default_rng(int(rng.integers(0, 2**31))), progress_bar=False)
+    except Exception as e:
+        rec.violation("C15/scorer/raises", "GaussianDBALScorer(max_triples=%d).score raised %r" % (budget, e), {"n_thetas": n_thetas, "budget": budget})
+        return
+    rec.count("scorer_object_counting_runs")
+    for pid, sc in res.items():
+        e = int(plates[int(pid)].size)
+        term = np.log(3.0) + e * (-0.5 * np.log(3.0))
+        used = float(np.exp(float(sc) - term))
+        rec.check(abs(used - want) <= 1e-6 * want, "C15/scorer/triples-not-all-used", lambda: "GaussianDBALScorer(max_triples=%d) evaluated %.3f triples on plate %d, %d expected (n_thetas=%d, C(n,3)=%d)" % (budget, used, int(pid), want, n_thetas, total), {"n_thetas": n_thetas, "budget": budget, "via": "scorer object"})
 
 
 def coverage_extra(tier, counters):
